@@ -85,6 +85,8 @@ func DecodedBitStreamParser_decode(bytes []byte) (*common.DecoderResult, error) 
 
 	for mode != Mode_PDA_ENCODE && bits.Available() > 0 {
 		var e error
+		segmentStart := len(result)
+		segmentMode := mode
 		if mode == Mode_ASCII_ENCODE {
 			mode, result, resultTrailer, e = decodeAsciiSegment(bits, result, resultTrailer, fnc1Positions)
 		} else {
@@ -108,6 +110,9 @@ func DecodedBitStreamParser_decode(bytes []byte) (*common.DecoderResult, error) 
 		}
 		if e != nil {
 			return nil, e
+		}
+		if segmentMode != Mode_BASE256_ENCODE {
+			result = latin1TailToUTF8(result, segmentStart)
 		}
 	}
 	if len(resultTrailer) > 0 {
@@ -138,6 +143,32 @@ func DecodedBitStreamParser_decode(bytes []byte) (*common.DecoderResult, error) 
 	}
 
 	return common.NewDecoderResultWithSymbologyModifier(bytes, string(result), byteSegments, "", symbologyModifier), nil
+}
+
+// latin1TailToUTF8 re-encodes result[from:] as UTF-8. The ASCII, C40, Text, X12 and EDIFACT segment decoders
+// append ISO-8859-1 code points (upper shift gives 128..255) while the text as a whole, like the Base 256
+// segments, is UTF-8.
+func latin1TailToUTF8(result []byte, from int) []byte {
+	extended := false
+	for _, b := range result[from:] {
+		if b >= 0x80 {
+			extended = true
+			break
+		}
+	}
+	if !extended {
+		return result
+	}
+	tail := append([]byte{}, result[from:]...)
+	result = result[:from]
+	for _, b := range tail {
+		if b < 0x80 {
+			result = append(result, b)
+		} else {
+			result = append(result, 0xC0|b>>6, 0x80|b&0x3F)
+		}
+	}
+	return result
 }
 
 // decodeAsciiSegment See ISO 16022:2006, 5.2.3 and Annex C, Table C.2
